@@ -232,9 +232,18 @@ impl NtpSourceSnapshot {
         if self.stratum != 1
             && local_ips
                 .iter()
-                .any(|ip| ReferenceId::from_ip(*ip) == self.source_id)
+                .any(|ip| ReferenceId::from_ip(*ip) == self.reference_id)
         {
             debug!("Source rejected because of detected synchronization loop (ref id)");
+            return Err(AcceptSynchronizationError::Loop);
+        }
+
+        // We should also never synchronize to ourselves, whatever stratum we claim to have.
+        if local_ips
+            .iter()
+            .any(|ip| ReferenceId::from_ip(*ip) == self.source_id)
+        {
+            debug!("Source rejected because it is this daemon itself");
             return Err(AcceptSynchronizationError::Loop);
         }
 
